@@ -54,7 +54,8 @@ CLAIMED = {
  "C15": dict(text="Theorems: trigonometric interpolation is exact (any field with a primitive root, any n, any query point: the character table is arbitrary) and reproduces every state at its grid points "
                   "(inversion theorem); the copied mode blocks partition the smaller grid and preserve the signed wavenumber for all parity combinations; the resampling model keeps the mean of ANY "
                   "state and all coefficients u_hat(k)/N^D of a Nyquist-free band-limited state when mapped to a finer grid or a coarser one that resolves it (any D, n, m, oddball setting). The model's "
-                  "kept-set and values are compared with the spectrum of map_between_resolutions for every (N_old, N_new) pair.",
+                  "kept-set and values are compared with the spectrum of map_between_resolutions for every (N_old, N_new) pair; the decisions of map_between_resolutions (early return, mask conditions, "
+                  "copied block size, scaling modes) are re-translated from the source on every run (harness/translate/resample.py, all other statements compared as text) and proved to be the model's.",
              note="The theorem on interpolation is the full complex spectrum statement (1-D, and every dimension D for the iterated transform); the half-spectrum real form with reconstruction weights (and indexing='xy') is checked on the real code, "
                   "including white noise on even grids at the grid points and query points outside the domain.",
              technique="Rocq proof (DFT theory from a primitive root, lia on the slice arithmetic, field identities) + correspondence of the resampled spectra", design="§4 C15"),
@@ -125,7 +126,7 @@ CLAIMED = {
                   "last array axis and components aligned with the grid (D<=3); wrap_bc. (Any field with a primitive n-th root, all n) orthogonality, idft.dft = id for every state, a sampled "
                   "character appears in exactly the named mode with value n*c, shift theorem, convolution theorem. The integer layout model is compared element by element with "
                   "build_wavenumbers/scaling arrays/masks/slices/wrap_bc/make_grid on every run. The layout functions of _spectral.py (wavenumber_shape, spatial_shape, "
-                  "space_indices, build_wavenumbers ij/xy, both low-pass masks, the oddball mask, _build_scaling_array and the three public modes, the three slices of get_modes_slices) "
+                  "space_indices, build_wavenumbers ij/xy, both low-pass masks, the oddball mask, _build_scaling_array and the three public modes, the three slices of get_modes_slices) and make_grid "
                   "are re-translated from the source on every run (harness/translate/spectral.py: symbolic execution with callees inlined, fail-closed) and proved equal to the layout model "
                   "for every D, N, cutoff and stored index.",
              note="jnp.fft.rfftn/irfftn are trusted to be the D-fold iterate of the 1-D DFT restricted to the half spectrum (checked against a brute-force DFT); the magnitude/phase read-off "
